@@ -57,6 +57,28 @@ theorem playF_onPlaying_after (x : FCfg) (ha : x.arm = some ⟨.onPlaying, 0, tr
     unfold hookF
     simp [ha, armStep, supF, ok, retOf, playingBaseF]
 
+/-- a pending pause action whose `on_pausing` raises: the exception becomes the exception of the action future (`.failed`), nothing
+propagates into the step, `_pausing` is cleared, nothing else changed -/
+theorem runActionF_onPausing (x : FCfg) (i : Nat) (a : Action) (af : Bool) (hai : x.l.c.actions[i]? = some a)
+    (hk : a.kind = .pause) (hs : a.status = .pending) (ha : x.arm = some ⟨.onPausing, 0, af⟩) :
+    (runActionF N x i none).2 = none ∧
+    (runActionF N x i none).1.l = (x.l.upd (fun c => { c with pausing := none })).upd (fun c => setActionStatus c i (.failed faultExc)) ∧
+    (runActionF N x i none).1.fired = true := by
+  obtain ⟨d1, d2, d3, _⟩ := doPauseF_onPausing (N := N) x af ha
+  unfold runActionF
+  rw [hai]
+  simp only [hs, ne_eq, not_true_eq_false, if_false, hk]
+  generalize doPauseF N x = r at d1 d2 d3
+  obtain ⟨y, ye⟩ := r
+  simp only at d1 d2 d3
+  subst d1
+  have hst : actionStatus y.l.c i = .pending := by
+    rw [d2]; unfold actionStatus; rw [upd_c]
+    show (match x.l.c.actions[i]? with | some a => a.status | none => AStatus.cancelled) = _
+    rw [hai]; exact hs
+  simp only [hst, if_true]
+  exact ⟨rfl, by show (y.updC _).l = _; rw [updC_l, d2], d3⟩
+
 end
 end FP
 end PMF
